@@ -72,8 +72,9 @@ class CFG:
         self.gotos = []
         self.cur_loc = func.get("l")
         body = func.get("body")
-        ends = self.stmt(body, [(self.entry.id, None)], None, None)
-        self.link(ends, self.exit.id)   # falling off the end
+        tb = [] if func.get("allow_break") else None
+        ends = self.stmt(body, [(self.entry.id, None)], tb, None)
+        self.link(ends + (tb or []), self.exit.id)   # falling off the end (or leaving an action with break)
         for nid, label in self.gotos:
             if label not in self.labels:
                 raise Broken("goto to unknown label %s in %s" % (label, func["q"]))
